@@ -28,7 +28,7 @@ import tdgen
 
 THEOREMS = ["C05_block_scopes_end", "C05_locals_do_not_leak", "C05_out_of_scope_partial", "C05_unresolved_reported",
             "C05_resolution_values_partial", "C05_resolution_blocks_partial", "C05_goto_newest_entry",
-            "C05_reference_logged", "C05_declarations_stable", "C05_resolution_partial"]
+            "C05_reference_logged", "C05_declarations_stable", "C05_resolution_partial", "C05_resolution_workspace_partial"]
 TRUSTED = [
     "Coq 8.16.1 kernel (coqc; vm_compute only in the non-vacuity Examples); no axioms",
     "statement of the declarative resolver coq/model/ScopeSpec.v (read against the TableGen scoping rules; "
